@@ -8,6 +8,7 @@ with the next one exactly as clean() would.
 """
 import json
 import os
+import re
 import signal
 import sys
 import traceback
@@ -283,6 +284,7 @@ CONSTANTS
   CheckC06 = %(c06)s
   CheckC07 = %(c07)s
   KnownRaised = {%(known)s}
+  KnownSteps = {%(steps)s}
 INVARIANTS Complete
 CHECK_DEADLOCK TRUE
 """
@@ -409,14 +411,38 @@ def record_all(ctx, inputs):
     return traces
 
 
-def known_raised(prop="C06"):
+def known_keys(prop):
     path = os.path.join(VERIF, "known_findings.json")
     try:
         with open(path) as f:
             ents = json.load(f).get("findings", [])
     except (OSError, ValueError):
         return []
-    return [e["key"] for e in ents if e.get("property") == prop and e.get("status") == "open" and e["key"].startswith("pass=")]
+    return [e["key"] for e in ents if e.get("property") == prop and e.get("status") == "open"]
+
+
+def known_raised(prop="C06"):
+    return [k for k in known_keys(prop) if k.startswith("pass=") and " exc=" in k]
+
+
+_STEP = re.compile(r"^clean after=(\w+) clause=(C0\d [a-z-]+) ")
+_FIXP = re.compile(r"^pass=(\w+) not-a-fixed-point$")
+
+
+def known_steps(prop):
+    """'pass|clause' pairs of the recorded findings of `prop`: TLC lets such a step pass (and prints
+    it) so that the rest of the trace is still validated; Python reports every one of them under
+    its full key, so a different failure of the same clause after the same pass is still a
+    VIOLATION."""
+    out = []
+    for k in known_keys(prop):
+        m = _STEP.match(k)
+        if m:
+            out.append("%s|%s" % (m.group(1), m.group(2)))
+        m = _FIXP.match(k)
+        if m:
+            out.append("%s|C06 fixed-point" % m.group(1))
+    return sorted(set(out))
 
 
 class Validation:
@@ -438,7 +464,8 @@ def validate(ctx, traces, prop, name="batch"):
         return val
     known = known_raised("C06") if prop == "C06" else []
     cfg = TRACE_CFG % dict(c05=str(prop == "C05").upper(), c06=str(prop == "C06").upper(), c07=str(prop == "C07").upper(),
-                           known=", ".join('"%s"' % k.replace('"', "'") for k in known))
+                           known=", ".join('"%s"' % k.replace('"', "'") for k in known),
+                           steps=", ".join('"%s"' % k for k in known_steps(prop)))
     shards = [c for c in chunks(usable, ctx.ncpu) if c]
     d = os.path.join(ctx.scratch, "traces-" + name)
     os.makedirs(d, exist_ok=True)
@@ -476,12 +503,18 @@ def validate(ctx, traces, prop, name="batch"):
 
 
 def first_diff(a, b):
-    """diagnostic only: where do two word lists differ"""
+    """diagnostic only: where do two word lists differ (first deleted / inserted / moved word)"""
+    import difflib
     wa, wb = [x["w"] for x in a], [x["w"] for x in b]
-    lost = [w for w in wa if wa.count(w) > wb.count(w)]
-    gained = [w for w in wb if wb.count(w) > wa.count(w)]
-    if lost or gained:
-        first = next((x for x in a if x["w"] in lost), None)
+    if wa != wb:
+        lost, gained, first = [], [], None
+        for tag, i1, i2, j1, j2 in difflib.SequenceMatcher(None, wa, wb, autojunk=False).get_opcodes():
+            if tag in ("delete", "replace"):
+                lost.extend(wa[i1:i2])
+                if first is None:
+                    first = a[i1]
+            if tag in ("insert", "replace"):
+                gained.extend(wb[j1:j2])
         return {"lost": lost[:6], "gained": gained[:6], "first_lost_place": first}
     for x, y in zip(a, b):
         if (x["w"], x["sec"], x["li"], x["ref"]) != (y["w"], y["sec"], y["li"], y["ref"]):
